@@ -682,9 +682,9 @@ func (v *visitor) relOp(token antlr.Token, left, right any) any {
 	op := token.GetText()
 	switch op {
 	case "==":
-		return left == right
+		return looseEqual(left, right)
 	case "!=":
-		return left != right
+		return !looseEqual(left, right)
 	case "<", "<=", ">", ">=":
 		if i, ok := IsInt(left); ok {
 			if j, ok := IsInt(right); ok {
@@ -712,6 +712,28 @@ func (v *visitor) relOp(token antlr.Token, left, right any) any {
 	default:
 		panic("assert error: unknown relationship binary operator: " + op)
 	}
+}
+
+// looseEqual 相等比较: 数字按数值比较, 与具体的 Go 整数/浮点类型无关(和 < <= > >= 的规则一致);
+// 其他类型按 Go 的 == 比较
+func looseEqual(left, right any) bool {
+	if i, ok := IsInt(left); ok {
+		if j, ok := IsInt(right); ok {
+			return i == j
+		}
+		if j, ok := IsFloat(right); ok {
+			return float64(i) == j
+		}
+	}
+	if i, ok := IsFloat(left); ok {
+		if j, ok := IsInt(right); ok {
+			return i == float64(j)
+		}
+		if j, ok := IsFloat(right); ok {
+			return i == j
+		}
+	}
+	return left == right
 }
 
 // relOp3 支持 int/float/string 三种数据类型的 关系运算符
